@@ -50,7 +50,7 @@ def cases(tier, seed):
 
 def expected_exits(m):
     shown = m["shown"]
-    blocked = m["n_unfiltered_tmp_prs"] > 0 and not m["fix_even_unparsable"]
+    blocked = max(m["n_unfiltered_tmp_prs"], m.get("truth_tmp_prs", 0)) > 0 and not m["fix_even_unparsable"]
     lint = 1 if any(not w for _, w, _, _ in shown) else 0
     fix = 0
     for code, warn, fixable, is_tp in shown:
